@@ -13,5 +13,5 @@ func init() {
 	})
 	register(&propertySpec{ID: "C11", Explain: "Static lock-set analysis of the state that different locations share (see rule docs); decides the data-race-freedom precondition of C11 only.", Rules: []ruleFn{ruleLocksetSystem}})
 	register(&propertySpec{ID: "C16", Explain: "Static lock-set and pairing rules for the cron services.", Rules: []ruleFn{ruleLocksetCron}})
-	register(&propertySpec{ID: "C20", Explain: "Static gate / lock-set / provenance rules for limits.", Rules: []ruleFn{ruleGateCap, ruleLocksetBreakers}})
+	register(&propertySpec{ID: "C20", Explain: "Static gate / lock-set / provenance rules for limits.", Rules: []ruleFn{ruleGateCap, ruleLocksetBreakers, ruleBrkAtomic, ruleBrkSlide, ruleBrkAttempted, ruleThrottle, ruleHTTPBreaker}})
 }
